@@ -1845,7 +1845,16 @@ fn compile_cexpr_effect(goenv: &GlobalGoEnv, expr: &anf::CExpr) -> Vec<goast::St
         | anf::CExpr::EToDyn { .. }
         | anf::CExpr::EProj { .. } => Vec::new(),
         anf::CExpr::ECall { .. } | anf::CExpr::EDynCall { .. } => {
-            vec![goast::Stmt::Expr(compile_cexpr(goenv, expr))]
+            // builtins are expanded in place and need not be Go calls: `vec_get(v, i)` is `v[i]`,
+            // which can fail but is no statement; `vec_new()` is `nil`, which does nothing
+            match compile_cexpr(goenv, expr) {
+                goast::Expr::Nil { .. } => Vec::new(),
+                index @ goast::Expr::Index { .. } => vec![goast::Stmt::Assignment {
+                    name: "_".to_string(),
+                    value: index,
+                }],
+                call => vec![goast::Stmt::Expr(call)],
+            }
         }
         anf::CExpr::EGo { closure, .. } => {
             vec![compile_go(goenv, closure)]
